@@ -138,8 +138,15 @@ fn error_point_case(rng: &mut Rng) -> String {
     const MISCASED: &[&str] = &["cons", "conts", "interfac", "interfaces", "enumm", "enu", "packag", "imprt", "imports", "onewa", "parcelabl", "Interface", "INTERFACE", "ENUM", "Enum", "Parcelable", "Import", "OneWay", "Package", "PACKAGE", "Const", "TRUE", "False", "IN", "Out", "Void", "Int", "STRING", "list", "MAP"];
     match rng.below(6) {
         5 => {
-            // a keyword in the wrong case (an identifier for the lexer) at the error point
-            pieces.push(rng.pick_str(MISCASED).to_string());
+            // a keyword in the wrong case / a misspelt keyword / a word the library's source mentions
+            if rng.chance(1, 3) {
+                match crate::vocab::ident(rng) {
+                    Some(w) => pieces.push(w),
+                    None => pieces.push(rng.pick_str(MISCASED).to_string()),
+                }
+            } else {
+                pieces.push(rng.pick_str(MISCASED).to_string());
+            }
             if rng.chance(1, 2) {
                 pieces.extend(r.toks[j..].iter().map(|t| t.text.clone()));
             }
@@ -199,7 +206,10 @@ pub fn run(ctx: &Ctx) -> i32 {
     // error floods: more than 100 recovered errors in one document (the last messages must be as complete as the first)
     stats.merge(par_cases(ctx, "floods", ctx.tier.pick(150u64, 3_000), Duration::from_secs(ctx.tier.pick(40, 300)), |i, rng, st| {
         let kind = rng.below(3);
-        let n = rng.range(101, 260);
+        let n = match crate::vocab::threshold(rng, 1200) {
+            Some(t) if t > 50 && rng.chance(1, 3) => t + rng.below(20),
+            _ => rng.range(101, 260),
+        };
         let bad = rng.pick_str(&[";", "= =", "oops oops", "12", ")", "for", "@A (", "in in"]);
         let mut s = String::from(match kind {
             0 => "package p; interface I { ",
